@@ -174,6 +174,9 @@ def split_cause(desc):
         if p not in ('Operator', 'Wildcard', 'Operator.Comparison') and not p.startswith('kw:') and \
                 i + 1 < len(parts) and parts[i + 1].startswith('Literal.Number') and desc_has_sign[0]:
             return 'sign-fused-with-number'
+    if desc_has_sign[0] and parts and all(p.startswith('Literal.Number') for p in parts):
+        # only the signed number is left of the written piece (`1.5-1e10` lexes as 1.5, -1e10 and the list starts at -1e10)
+        return 'sign-fused-with-number'
     opnd = [not (p in ('Operator', 'Wildcard', 'Operator.Comparison') or p.startswith('kw:') and p[3:] in PRED_KW)
             for p in parts]
     if desc_has_sign[0] and any(opnd[i] and opnd[i + 1] and parts[i + 1] != 'SquareBrackets' and
